@@ -78,6 +78,11 @@ TYPE_VARIANTS = [
     ("and", {"kind": "and", "items": [{"kind": "reference", "name": "Position"}, {"kind": "reference", "name": "Range"}]}),
     ("or", {"kind": "or", "items": [{"kind": "base", "name": "string"}, {"kind": "base", "name": "null"}]}),
     ("tuple", {"kind": "tuple", "items": [{"kind": "base", "name": "uinteger"}, {"kind": "base", "name": "string"}]}),
+    ("or-single-item", {"kind": "or", "items": [{"kind": "base", "name": "string"}]}),
+    ("and-single-item", {"kind": "and", "items": [{"kind": "reference", "name": "Position"}]}),
+    ("nested-single-item", {"kind": "array", "element": {"kind": "or", "items": [{"kind": "reference", "name": "Position"}]}}),
+    ("tuple-single-item", {"kind": "tuple", "items": [{"kind": "base", "name": "string"}]}),
+    ("empty-or", {"kind": "or", "items": []}),
     ("literal", {"kind": "literal", "value": {"properties": [{"name": "a", "type": {"kind": "base", "name": "string"}, "optional": True}]}}),
     ("literal-annotated", {"kind": "literal", "value": {"properties": [], "documentation": "d", "since": "3.18.0", "proposed": True, "deprecated": "x", "sinceTags": ["3.18.0"]}}),
     ("stringLiteral", {"kind": "stringLiteral", "value": "lit"}),
